@@ -2,7 +2,7 @@
 From Coq Require Import ZArith NArith List.
 Import ListNotations.
 From AV Require Import model.UnitTypes model.Map model.Units model.Compound model.Cbor model.Codec proofs.MapProofs proofs.CborProofs proofs.CodecProofs
-  gen.UnitDefs gen.Shipped.
+  gen.UnitDefs gen.Shipped spec.RefIds.
 Open Scope N_scope.
 
 (* wire level: every value of the CBOR subset serde_cbor uses for the stored types decodes back to itself, whatever follows it,
@@ -17,6 +17,11 @@ Theorem C17_digits_roundtrip : forall z, of_digits (digits_of z) = z /\ Forall (
 Proof. exact digits_roundtrip. Qed.
 Theorem C17_rational_roundtrip : forall n d, d <> 0%Z -> dec_rational (enc_rational n d) = Some (n, d).
 Proof. exact rational_roundtrip. Qed.
+
+(* the identifiers are stable across builds: every identifier of the reference table pinned in spec/RefIds.v still denotes a derived
+   unit printing the same symbol -- none has been renumbered or reused (new units may be added) *)
+Theorem C17_ids_stable : forallb ref_id_kept ref_ids = true.
+Proof. exact ids_stable. Qed.
 
 (* every derived unit has a unique stable numeric identifier that decodes to the same unit (tables of src/generated/ids.rs as
    translated on this run): identifiers pairwise distinct, id_to_derived defined exactly on them and returning the same unit *)
